@@ -277,6 +277,71 @@ def random_formats(chk, n):
         check_pictures(chk, font, cfg, srcs, glyphs, tol, f"random scenario {k} [{fmt}]", replay, raw=raw, deltas=deltas)
 
 
+def replay_gradient_model(chk):
+    """OTSVGGrad.tla: every state (map font->viewBox x residual wrapper x circle) replayed into the real svg._apply_paint;
+    the ellipse the emitted <radialGradient> paints (centre and L L^T) must be the exact one."""
+    from lxml import etree as ET
+
+    res = common.run_tlc("OTSVGGrad", "OTSVGGrad.cfg", timeout=600)
+    chk.add_tlc(res, "OTSVGGrad (exhaustive: 6 maps x 3 wrappers x 2 circles)")
+    if not res.ok:
+        chk.tlc_violation(res, "OTSVGGrad")
+    for neg in ("OTSVGGrad_pinned.cfg", "OTSVGGrad_pinned_ellipse.cfg"):
+        nres = common.run_tlc("OTSVGGrad", neg, timeout=600, coverage=False)
+        chk.add_tlc(nres, f"{neg} (the pinned tree's mapping: expected to be violated)")
+        if nres.ok:
+            raise MachineryError(f"{neg} holds: the gradient invariants are vacuous")
+    common.setup_repo_imports()
+    from nanoemoji import svg as nsvg
+    from nanoemoji.paint import ColorStop, Extend, PaintRadialGradient, PaintTransform
+    from nanoemoji.colors import Color
+    from picosvg.geometric_types import Point
+    from picosvg.svg_transform import Affine2D
+
+    def fl(x):
+        return x[0] / x[1]
+
+    def gram(a, r):
+        A, B, C, D = a[0] * r, a[1] * r, a[2] * r, a[3] * r
+        return (A * A + C * C, A * B + C * D, B * B + D * D)
+
+    for rec in res.records:
+        M = tuple(fl(x) for x in rec["M"])
+        W = tuple(fl(x) for x in rec["W"])
+        c = (fl(rec["c"][0]), fl(rec["c"][1]))
+        r = fl(rec["r"])
+        stops = (ColorStop(0.0, Color.fromstring("red")), ColorStop(1.0, Color.fromstring("blue")))
+        paint = PaintRadialGradient(stops=stops, extend=Extend.PAD, c0=Point(*c), c1=Point(*c), r0=0.0, r1=r)
+        if W != (1, 0, 0, 1, 0, 0):
+            paint = PaintTransform(transform=W, paint=paint)
+        defs = ET.Element("defs")
+        el = ET.Element("path")
+        replay = {"kind": "gradient-model", "state": rec}
+        chk.case(key=("grad", json.dumps(rec, sort_keys=True)), nontrivial=True)
+        chk.traces_validated += 1
+        try:
+            nsvg._apply_paint(defs, el, paint, Affine2D(*M), None)
+        except Exception as e:
+            chk.violation(f"a valid radial gradient is refused ({type(e).__name__}: {str(e)[:120]}) for the font->viewBox map {M}", replay)
+            continue
+        g = defs[0]
+        cx, cy, rr = float(g.attrib["cx"]), float(g.attrib["cy"]), float(g.attrib["r"])
+        gt = tuple(Affine2D.fromstring(g.attrib["gradientTransform"])) if "gradientTransform" in g.attrib else (1, 0, 0, 1, 0, 0)
+        if rr <= 0:
+            chk.violation(f"radial gradient written with radius {rr} for the font->viewBox map {M}", replay)
+            continue
+        # exact: wrapper first, then the map
+        ex = tuple(Affine2D.compose_ltr((Affine2D(*W), Affine2D(*M))))
+        want_c = (ex[0] * c[0] + ex[2] * c[1] + ex[4], ex[1] * c[0] + ex[3] * c[1] + ex[5])
+        got_c = (gt[0] * cx + gt[2] * cy + gt[4], gt[1] * cx + gt[3] * cy + gt[5])
+        gw, gg = gram(ex, r), gram(gt, rr)
+        scale = max(abs(v) for v in gw) or 1.0
+        if max(abs(a - b) for a, b in zip(want_c, got_c)) > 0.02 * max(1.0, r * max(abs(ex[0]), abs(ex[3]))) or \
+                max(abs(a - b) for a, b in zip(gw, gg)) > 0.02 * scale:
+            chk.violation(f"radial gradient (centre {c}, r {r}, wrapper {W}) under the map {M}: painted ellipse centre {tuple(round(v, 2) for v in got_c)} "
+                          f"/ shape {tuple(round(v, 3) for v in gg)}, exact {tuple(round(v, 2) for v in want_c)} / {tuple(round(v, 3) for v in gw)}", replay)
+
+
 def transform_fill_grid(chk):
     """user transform kinds x gradient kinds, as picosvg documents (the glyph's <g> carries the transform, gradients are
     written in viewBox coordinates with a gradientTransform)."""
@@ -354,6 +419,7 @@ def run(chk):
     replay_model(chk, res.records, 100 if quick else 3000)
     random_formats(chk, 50 if quick else 1500)
     transform_fill_grid(chk)
+    replay_gradient_model(chk)
     shared_gradient_documents(chk, 16 if quick else 400)
     chk.assumptions += ["OT-SVG/SVG 1.1 semantics as implemented by harness/oracle_otsvg.py (g, path, use, defs, basic "
                         "shapes, fill inheritance, opacity, gradients)", "picosvg reuses isometric copies (assumption of the model; "
